@@ -76,17 +76,17 @@ def run_entry(e):
 
 
 def main(argv):
+    from concurrent.futures import ThreadPoolExecutor
     sel = argv
     bad = 0
-    n = 0
-    for e in entries():
-        if sel and not any(s in e["name"] or s == e["property"] for s in sel):
-            continue
-        n += 1
-        ok, msg = run_entry(e)
-        print("%s %-48s %s %s" % ("PASS" if ok else "FAIL", e["name"], e["property"], msg))
-        sys.stdout.flush()
-        if not ok:
-            bad += 1
-    print("selftest: %d entries, %d failed" % (n, bad))
+    todo = [e for e in entries() if not sel or any(s in e["name"] or s == e["property"] for s in sel)]
+    # each entry works on its own scratch copy and its own fact-cache key: AMVERIF_SELFTEST_JOBS of them run side by side
+    jobs = max(1, int(os.environ.get("AMVERIF_SELFTEST_JOBS", "4")))
+    with ThreadPoolExecutor(max_workers=jobs) as ex:
+        for e, (ok, msg) in zip(todo, ex.map(run_entry, todo)):
+            print("%s %-48s %s %s" % ("PASS" if ok else "FAIL", e["name"], e["property"], msg))
+            sys.stdout.flush()
+            if not ok:
+                bad += 1
+    print("selftest: %d entries, %d failed" % (len(todo), bad))
     return 1 if bad else 0
